@@ -34,10 +34,48 @@ func init() {
 		Acc(c, "R-ACC", []*packages.Package{c.Pkg("seq"), c.Pkg("iterator"), c.Pkg("list")})
 		MonoidEmpty(c, "R-EMPTY", []*packages.Package{c.Pkg("seq"), c.Pkg("iterator"), c.Pkg("list")})
 		Mirror(c, "R-MIRROR", []*packages.Package{c.Pkg("monoid"), c.Pkg("semigroup")}, map[string]bool{"Combine": true}, true,
-			func(bc binClosure) bool { return bc.fb.Decl != nil && bc.fb.Decl.Name.Name == "Dual" }, 25)
+			dualExempt(c), 25)
 		Rel(c, "R-REL", []*packages.Package{c.Pkg("monoid"), c.Pkg("semigroup")}, anyDecl, instanceParam, 200)
 		NoSwap(c, "R-NOSWAP", []*packages.Package{c.Pkg("monoid"), c.Pkg("semigroup")})
 		EmptyUsed(c, "R-EMPTYUSED", []*packages.Package{c.Pkg("monoid"), c.Pkg("fp")})
 		PureCombine(c, "R-PURE-COMBINE", []*packages.Package{c.Pkg("monoid"), c.Pkg("semigroup")}, 3)
 	})
+}
+
+
+// dualExempt: Dual is the one instance that swaps its operands by definition; so does an unexported helper that is
+// referred to only from inside Dual (flip(sg) extracted from it).
+func dualExempt(c *core.Ctx) func(bc binClosure) bool {
+	return func(bc binClosure) bool {
+		if bc.fb.Decl == nil {
+			return false
+		}
+		if bc.fb.Decl.Name.Name == "Dual" {
+			return true
+		}
+		if bc.fb.Decl.Recv != nil || ast.IsExported(bc.fb.Decl.Name.Name) {
+			return false
+		}
+		info := bc.fb.Pkg.TypesInfo
+		self := info.Defs[bc.fb.Decl.Name]
+		refs, inDual := 0, 0
+		for _, f := range bc.fb.Pkg.Syntax {
+			for _, d := range f.Decls {
+				fd, ok := d.(*ast.FuncDecl)
+				if !ok || fd.Body == nil {
+					continue
+				}
+				ast.Inspect(fd.Body, func(x ast.Node) bool {
+					if id, ok := x.(*ast.Ident); ok && info.Uses[id] == self {
+						refs++
+						if fd.Name.Name == "Dual" && fd.Recv == nil {
+							inDual++
+						}
+					}
+					return true
+				})
+			}
+		}
+		return refs > 0 && refs == inDual
+	}
 }
